@@ -66,6 +66,19 @@ def under_null(obs, label):
     return False
 
 
+def near_simultaneous(sched):
+    """Did the schedule contain a completion released k loop iterations after another one (Scheduler.p_double)?"""
+    import re
+    return any(re.search(r'\+\d+$', t) for t in sched.trace)
+
+
+def inside_list_item(label):
+    try:
+        return any(isinstance(k, int) for k in json.loads(label.split('@')[0].split('#')[0]))
+    except ValueError:
+        return False
+
+
 def label_keys(label):
     try:
         return tuple(k for k in json.loads(label.split('@')[0].split('#')[0]) if isinstance(k, str))
@@ -176,7 +189,11 @@ def verdicts(ctx, run, sched, hz, obs, stop, early, src, case):
             return
         if it.started and not (it.exhausted or it.raised or it.aclose_calls == 1):
             mech = "source-iterator-not-closed"
-            if under_null(obs, it.label):
+            if stop and stop[0] == 'abort' and early and inside_list_item(it.label) and near_simultaneous(sched) and not under_null(obs, it.label):
+                # the source of a stream nested in the items of another stream, discovered by an early executed item whose
+                # completion lands within a few loop iterations of the abort (recorded finding, thorough tier only)
+                mech += ":nested-stream-source-discovered-around-an-abort"
+            elif under_null(obs, it.label):
                 # the source belongs to a position that a synchronously failing sibling had already nulled: its resolver had
                 # been left to settle in the background, where nobody consumes or closes what it opens
                 mech += ":opened-by-abandoned-background-work"
@@ -198,7 +215,13 @@ def verdicts(ctx, run, sched, hz, obs, stop, early, src, case):
         hc = obs.hook_calls[0]
         if hc['unfinished'] or hc['background']:
             mech = "hook-before-work-settled"
-            if not hc['background'] and hc['unfinished'] and all(u.endswith('@aclose') for u in hc['unfinished']):
+            if not hc['background'] and hc['unfinished'] and stop and early and near_simultaneous(sched) and \
+                    all(inside_list_item(u) and '@' not in u for u in hc['unfinished']) and any(k in streamed_key_paths(src) for k in
+                                                                                              {label_keys(u)[:i] for u in hc['unfinished'] for i in range(1, len(label_keys(u) or ()) + 1)}):
+                # resolvers of deferred fragments that belong to an item of a streamed list: the item arrived (early execution)
+                # within a few loop iterations of the stop, and the work it started is neither cancelled nor waited for
+                mech += ":deferred-work-of-a-stream-item-arriving-around-the-stop"
+            elif not hc['background'] and hc['unfinished'] and all(u.endswith('@aclose') for u in hc['unfinished']):
                 # the only thing still running is the close() of a source that takes time: it has been started by the clean-up
                 # (complete_async_iterator_value while unwinding, a stream item queue's abort callback) but the hook does not
                 # wait for it on every path
